@@ -251,8 +251,14 @@ func (d *dumper) node(n ast.Node, depth int) {
 		}
 		// `((x))` is printed `(x)` by both formatters (theorem C08_parser_tree: the only tree
 		// change on parser-shaped trees is this collapse): compare modulo doubled parentheses
-		if in, ok := x.X.(*ast.ParenExpr); ok && len(ast.Comments(x)) == 0 {
-			d.node(in, depth)
+		if in, ok := x.X.(*ast.ParenExpr); ok {
+			if len(ast.Comments(x)) == 0 {
+				d.node(in, depth)
+				return
+			}
+			cp := *in
+			ast.SetComments(&cp, append(append([]*ast.CommentGroup{}, ast.Comments(x)...), ast.Comments(in)...))
+			d.node(&cp, depth)
 			return
 		}
 	case *ast.Ellipsis:
